@@ -258,7 +258,7 @@ class Analyzer:
                 for k in n.keywords:
                     if k.arg == 'mode' and isinstance(k.value, ast.Constant): mode = k.value.value
                 path = ast.unparse(n.args[0]) if n.args else '?'
-                if n.args and isinstance(n.args[0], ast.Name) and n.args[0].id not in params: path = '<local>'      # a local's spelling is not part of the effect (renaming it changes nothing)
+                if n.args and isinstance(n.args[0], ast.Name) and (n.args[0].id not in params or n.args[0].id in assigned): path = '<local>'      # a local's spelling is not part of the effect (renaming it changes nothing)
                 s.add(('fs_write:' if any(c in str(mode) for c in 'wax+') else 'fs_read:') + path, n.lineno, guards); return
             if name in FS_WRITE_FUNCS: s.add(f'fs_write:{name}', n.lineno, guards); return
             kind = self.resolve_callee(m, name, cls)
